@@ -857,6 +857,15 @@ class Exec:
             for c in CTX.pending:
                 self.add_pc(st, c)
             CTX.pending.clear()
+        if CTX.range_checks:
+            # rounded-real reading: the relative-error model is only valid while no
+            # operation overflows; each rounded operation gets that side obligation
+            if self.opts.get('range_obligations', True):
+                for (t, w) in CTX.range_checks:
+                    big = fpops.realval(3.4028234663852886e38 if w == 32 else 1.7976931348623157e308)
+                    self.add_obligation(st, 'rounded-real reading: no float%d operation overflows (%s)' % (w, fr.fid.split('.')[-1]),
+                                        z3.Or(t > big, t < -big), kind='range')
+            CTX.range_checks.clear()
         return r
 
     def val(self, fr, o):
